@@ -655,7 +655,7 @@ fn controller(plan: &Plan, opts: &ExecOptions, main: Worker) -> (ExecLog, bool) 
     }
     if opts.keep_text {
         for (ri, (ii, text)) in &model {
-            if log.inputs[*ii].outcome == Outcome::Ok && !plan.reqs[*ri].has_expr_none_group() {
+            if log.inputs[*ii].outcome == Outcome::Ok {
                 log.texts.push((*ri, text.clone()));
             }
         }
